@@ -41,11 +41,16 @@ import (
 func init() { extractors["accesses"] = extractAccesses }
 
 type accAnnotations struct {
-	Packages     []string                              `json:"packages"`
-	TrackedTypes map[string]any                        `json:"tracked_types"`
-	AtomicTypes  struct{ Types []string }              `json:"atomic_types"`
-	LockAliases  []struct{ Expr, Is, Why string }      `json:"lock_aliases"`
-	LocalLocks   []struct{ Func, Var, Is, Why string } `json:"local_locks"`
+	Packages     []string                         `json:"packages"`
+	TrackedTypes map[string]any                   `json:"tracked_types"`
+	AtomicTypes  struct{ Types []string }         `json:"atomic_types"`
+	LockAliases  []struct{ Expr, Is, Why string } `json:"lock_aliases"`
+	ResultLocks  []struct {
+		Callee string
+		Result int
+		Is     string
+		Why    string
+	} `json:"result_locks"`
 	ClosureLocks []struct {
 		Callee string
 		Arg    int
@@ -224,6 +229,7 @@ type accExtractor struct {
 	trackedNames  map[string]bool
 	confinedCache map[string]map[string]bool
 	closures      map[token.Pos]*closureInfo
+	lockVars      map[types.Object]string // local *sync.Mutex variables → the mutex they point to
 }
 
 func (x *accExtractor) typeDisplay(tn *types.TypeName) string {
@@ -284,7 +290,7 @@ func isMutexType(t types.Type) (rw bool, ok bool) {
 func extractAccesses(repo, root string) error {
 	x := &accExtractor{repo: repo, fset: token.NewFileSet(), tracked: map[*types.TypeName]string{}, atomicTy: map[string]bool{},
 		funcs: map[*types.Func]*funcNode{}, usedAnn: map[string]bool{}, nclosure: map[string]int{},
-		methodsNamed: map[string][]*funcNode{}, aliases: map[string]map[string]bool{}, ourPkgs: map[*types.Package]*pkgInfo{}, trackedNames: map[string]bool{}, closures: map[token.Pos]*closureInfo{}}
+		methodsNamed: map[string][]*funcNode{}, aliases: map[string]map[string]bool{}, ourPkgs: map[*types.Package]*pkgInfo{}, trackedNames: map[string]bool{}, closures: map[token.Pos]*closureInfo{}, lockVars: map[types.Object]string{}}
 	ab, err := os.ReadFile(filepath.Join(root, "go", "extract", "accesses", "access_annotations.json"))
 	if err != nil {
 		return err
@@ -361,6 +367,7 @@ func extractAccesses(repo, root string) error {
 		}
 	}
 	x.aliasPrepass()
+	x.lockVarPrepass()
 	// walk every function body
 	for _, p := range x.pkgs {
 		for _, f := range p.files {
@@ -1037,12 +1044,11 @@ func (w *walker) closureS(fl *ast.FuncLit, ls *lockset, sync bool, annots ...str
 func (w *walker) lockID(recv ast.Expr) string {
 	var parts []string
 	e := recv
-	if id, ok := recv.(*ast.Ident); ok && w.fn != nil {
-		// a local *sync.Mutex that a reviewed annotation identifies (`lock` returned by Conn.waitResponse = &c.rlock)
-		for _, a := range w.x.ann.LocalLocks {
-			if a.Func == w.fn.name && a.Var == id.Name {
-				w.x.usedAnn["local_lock "+a.Func+":"+a.Var] = true
-				return a.Is
+	if id, ok := recv.(*ast.Ident); ok {
+		// a local *sync.Mutex variable: which mutex it points to was derived from its assignments (lockVars)
+		if o := w.p.info.Uses[id]; o != nil {
+			if l, ok := w.x.lockVars[o]; ok {
+				return l
 			}
 		}
 	}
@@ -2362,4 +2368,84 @@ func (w *walker) sharedPtrField(e ast.Expr) (string, bool) {
 		return "", false
 	}
 	return owner + "." + sel.Obj().Name(), true
+}
+
+// lockVarPrepass: local variables of type *sync.Mutex / *sync.RWMutex and the mutex they point to, by OBJECT (names
+// do not matter): `l := x.f` / `l = &x.f` with x.f a mutex field (through lock_aliases), or the i-th result of a call
+// that a reviewed `result_locks` annotation identifies (`_, _, lock, _ := c.waitResponse(…)` = &c.rlock).
+// A variable assigned two different mutexes is dropped.
+func (x *accExtractor) lockVarPrepass() {
+	conflict := map[types.Object]bool{}
+	set := func(o types.Object, l string) {
+		if o == nil || l == "" {
+			return
+		}
+		if old, ok := x.lockVars[o]; ok && old != l {
+			conflict[o] = true
+		}
+		x.lockVars[o] = l
+	}
+	for _, p := range x.pkgs {
+		w := &walker{x: x, p: p}
+		obj := func(e ast.Expr) types.Object {
+			id, ok := e.(*ast.Ident)
+			if !ok {
+				return nil
+			}
+			if o := p.info.Defs[id]; o != nil {
+				return o
+			}
+			return p.info.Uses[id]
+		}
+		isMu := func(o types.Object) bool {
+			if o == nil {
+				return false
+			}
+			_, ok := isMutexType(o.Type())
+			_, isPtr := o.Type().(*types.Pointer)
+			return ok && isPtr
+		}
+		for _, f := range p.files {
+			ast.Inspect(f, func(n ast.Node) bool {
+				as, ok := n.(*ast.AssignStmt)
+				if !ok {
+					return true
+				}
+				if len(as.Rhs) == 1 && len(as.Lhs) > 1 {
+					if c, ok := as.Rhs[0].(*ast.CallExpr); ok {
+						if callee, _ := w.calleeOf(c); callee != nil {
+							name := w.calleeName(callee)
+							for _, an := range x.ann.ResultLocks {
+								if an.Callee == name && an.Result < len(as.Lhs) {
+									if o := obj(as.Lhs[an.Result]); isMu(o) {
+										set(o, an.Is)
+										x.usedAnn["result_locks "+an.Callee] = true
+									}
+								}
+							}
+						}
+					}
+					return true
+				}
+				for i, l := range as.Lhs {
+					if i >= len(as.Rhs) {
+						break
+					}
+					if o := obj(l); isMu(o) {
+						r := as.Rhs[i]
+						if u, ok := r.(*ast.UnaryExpr); ok && u.Op == token.AND {
+							r = u.X
+						}
+						if _, ok := r.(*ast.SelectorExpr); ok {
+							set(o, w.lockID(r))
+						}
+					}
+				}
+				return true
+			})
+		}
+	}
+	for o := range conflict {
+		delete(x.lockVars, o)
+	}
 }
